@@ -848,6 +848,17 @@ def sobol_engine_rule(ctx, run):
             problems.append(f"the result is not given the requested shape ({str(vv)[:40]})")
     else:
         problems.append("__call__: expected one path")
+    # independence along the time axis: a low-discrepancy sequence is equidistributed over its DIMENSIONS, its consecutive points are not
+    # independent draws.  An (N, T) request is for T independent normals per path; if the dimension of the sequence does not grow with T
+    # (one coordinate pair per time step) and the stream is laid out row-major, one path consists of consecutive points of one sequence.
+    if len(resc) == 1:
+        dims_ = [t.args[1] for t in walk(resc[0]["value"]) if isinstance(t, Op) and t.op == "dist" and t.args and t.args[0] == "SobolEngine" and len(t.args) > 1]
+        dep = bool(dims_) and all(isinstance(d0, (Op, Sym)) and any(x_ == W.integer("T") for x_ in walk(d0)) for d0 in dims_)
+        run.oblige("C10.R7", "RandnSobolBoxMuller: the Sobol dimension covers the time axis (independent normals along a path)", dep, f"SobolEngine dimension {dims_}")
+        if not dep:
+            run.fail(Finding("C10.R7", call.qualname, f"SobolEngine dimension {dims_[0] if dims_ else None} does not depend on the requested time axis",
+                             "consecutive points of one low-discrepancy sequence fill the time axis of each path: increments are not independent, so paths driven by this engine do not have the law of the model",
+                             file=str(prog.modules[call.module].path), line=call.node.lineno, witness="Var[B_T] / (sigma^2 T) = 0.07 .. 0.12 for generate_brownian(20000, 50, engine=RandnSobolBoxMuller(scramble=True))"))
     ok = not problems
     run.oblige("C10.R7", "RandnSobolBoxMuller: n normals from ceil-enough 2-d Sobol points through box_muller, requested shape/dtype/device", ok, "; ".join(problems))
     if not ok:
